@@ -31,15 +31,19 @@ MCInit ==
     /\ up = [k \in 1 .. NM |-> TRUE]
     /\ uc = [k \in 1 .. NM |-> NoConn]
 
+\* a cancelled announce and the "stopped" announce come back quickly: the environment does not change again before
+\* they did (the announcer's own steps - restart, timer, replies, "completed" - do overlap with them)
+Calm == \A r \in rq : r.ph \notin {"zombie", "stop"}
+
 MCNext ==
     \/ \E t \in T : Start(t) \/ Fire(t) \/ AnnComplete(t)
-    \/ ("stop" \in ENV /\ \E t \in T : Stop(t))
-    \/ ("complete" \in ENV /\ \E t \in T : Complete(t))
-    \/ ("need" \in ENV /\ \E t \in T, v \in BOOLEAN : Need(t, v))
+    \/ ("stop" \in ENV /\ Calm /\ \E t \in T : Stop(t))
+    \/ ("complete" \in ENV /\ Calm /\ \E t \in T : Complete(t))
+    \/ ("need" \in ENV /\ Calm /\ \E t \in T, v \in BOOLEAN : Need(t, v))
     \/ \E r \in rq : Reply(r) \/ DeliverErr(r) \/ SideEnd(r)
     \/ \E k \in K : ConnStep(k)
-    \/ ("expire" \in ENV /\ \E k \in K : ConnExpire(k))
-    \/ ("flip" \in ENV /\ \E k \in K : Flip(k))
+    \/ ("expire" \in ENV /\ Calm /\ \E k \in K : ConnExpire(k))
+    \/ ("flip" \in ENV /\ Calm /\ \E k \in K : Flip(k))
 
 \* the announcer's own steps and the tracker's answers are fair; torrent events and tracker outages are not
 Fair ==
